@@ -466,7 +466,8 @@ def stale_runs(c):
     cls = ({"bk"} if observable(c["bk"]) else set()) | ({"of"} if observable(c["of"]) else set())
     ident = {}          # identifier -> operand index (None: callable / file, a fresh pipeline every time)
     for k, e in [x for x in c["tab"] if x[1][0] == "file"] + [x for x in c["tab"] if x[1][0] != "file"]:
-        ident[k] = e[1] if e[0] == "obj" else None       # callable / file / callable with memory: fresh pipelines
+        # callable / file / callable with memory: fresh pipelines, i.e. fresh item objects at every resolution
+        ident[k] = e[1] if e[0] == "obj" else ("fresh", any(observable(d) for d in (e[1] if e[0] == "seq" else [e[1]])))
     last, stale = {}, {}
 
     def tl(t):
@@ -485,9 +486,11 @@ def stale_runs(c):
                 leaves.append(ls)
             elif o[0] == "resolve":
                 ls = set()
-                for s in o[1]:
-                    if ident[s] is not None:
+                for j, s in enumerate(o[1]):
+                    if isinstance(ident[s], int):
                         ls |= leaves[ident[s]]
+                    elif ident[s][1]:
+                        ls.add(("inst", len(leaves), j))
                 if len(o[1]) >= 2:
                     touch(ls)
                 leaves.append(ls)
